@@ -1213,6 +1213,13 @@ func (r *Resolver) answer(ctx context.Context, req, resp *dns.Msg, parentDS []dn
 			targetAuthority := append([]dns.RR(nil), targetMsg.Ns...)
 			resp = r.clearAdditional(req, resp, extra...)
 			resp.Ns = targetAuthority
+			if targetMsg.Rcode == dns.RcodeServerFailure {
+				// The target's failure is the composed answer's failure:
+				// carry its reason too, not only its rcode.
+				if ede := dnsutil.GetEDE(targetMsg); ede != nil && dnsutil.GetEDE(resp) == nil {
+					dnsutil.SetEDE(resp, ede.InfoCode, ede.ExtraText)
+				}
+			}
 			return resp, nil
 		}
 	}
